@@ -458,6 +458,19 @@ example : execute witnessEnv (genesisView [] 0) ⟨1, 749, 0, 0⟩ = .error .too
 example : execute witnessEnv (genesisView [] 0) ⟨1, 1700000001001, 0, 0⟩ = .error .tooLate := rfl
 example : execute witnessEnv (genesisView [] 0) ⟨2, 750, 0, 0⟩ = .error .height := rfl
 example : execute witnessEnv (genesisView [] 0) ⟨1, 750, 0, 5⟩ = .error .root := rfl
+/- a fork: siblings A1 (root 1) and A2 (root 2) on the genesis view; a child of A1 verifies
+with A1's post-state root and is rejected with A2's — `execute` consults the parent view's
+root only, never anything remembered from another execution -/
+private def envA (r : Nat) : Env := { witnessEnv with newRoot := r }
+private def a1 : Block := ⟨1, 1700000000000, 0, 0⟩
+private def a2 : Block := ⟨1, 1700000000001, 1, 0⟩
+example : execute (envA 1) (genesisView [] 0) a1 = .ok (postView (envA 1) a1) := rfl
+example : execute (envA 2) (genesisView [] 0) a2 = .ok (postView (envA 2) a2) := rfl
+example : (postView (envA 1) a1).root = 1 ∧ (postView (envA 2) a2).root = 2 := by decide
+example : execute (envA 3) (postView (envA 1) a1) ⟨2, 1700000001000, 0, (postView (envA 2) a2).root⟩
+    = .error .root := rfl
+example : execute (envA 3) (postView (envA 1) a1) ⟨2, 1700000001000, 0, (postView (envA 1) a1).root⟩
+    = .ok (postView (envA 3) ⟨2, 1700000001000, 0, 1⟩) := rfl
 example : buildHeader 1700000000000 defaultRules (genesisBlock 0) 0 = .ok (1, 1700000000000) := rfl
 example : buildBlock 1000300 defaultRules ⟨1, 1000000, 0, 0⟩ 5 [.dropped] = .error .noTxs := rfl
 example : buildBlock 1000300 defaultRules ⟨1, 1000000, 0, 0⟩ 5 [.dropped, .included]
